@@ -484,3 +484,47 @@ def n_recv( ctx ):
     else:
         res.bad( src, rd, 'readable select', 'readability must be tested with select on the connection\'s file descriptor with the (remaining) timeout' )
     return res
+
+
+RECV_SITES = (	# ( file, qualified function )
+    ( 'server/enip/main.py', 'enip_srv_tcp' ), ( 'server/enip/main.py', 'enip_srv_udp' ), ( 'server/tnet.py', 'tnet_from' ), ( CLIENT, 'client.__next__' ),
+)
+
+
+@rule( 'P-CHAIN', props=( 'C02', 'C20', 'C13' ), floor=4 )
+def p_chain( ctx ):
+    """what is chained to a parser's input source is exactly what the receive call returned (no stripping, slicing or re-encoding of received blocks), and handlers do not share a source through a mutable default argument"""
+    res = Result( 'P-CHAIN' )
+    from .rules_paths import LocalDefs
+    for rel, qn in RECV_SITES:
+        if not ctx.model.exists( rel ):
+            continue
+        src = ctx.src( rel )
+        fn = src.get( qn )
+        ld = LocalDefs( fn )
+        chains = [ c for c in ast.walk( fn ) if isinstance( c, ast.Call ) and isinstance( c.func, ast.Attribute ) and c.func.attr == 'chain' and len( c.args ) == 1 ]
+        if not chains:
+            res.bad( src, fn, '%s: received data is never chained to the parser source' % qn, 'requests would never be parsed' )
+            continue
+        for c in chains:
+            a = c.args[0]
+            if not isinstance( a, ast.Name ):
+                res.bad( src, c, c, 'the received block must be chained unmodified (found an expression)' )
+                continue
+            defs = ld.defs.get( a.id, [] )
+            def is_recv( v ):
+                if isinstance( v, ast.Constant ) and v.value is None:
+                    return True
+                return isinstance( v, ast.Call ) and ( call_name( v ).split( '.' )[-1] in ( 'recv', 'recvfrom' ))
+            bad = [ v for v in defs if not is_recv( v ) ]
+            if defs and not bad:
+                res.ok( src, c, '%s: %s.chain( %s ) with %s taken directly from %s' % ( qn, txt( c.func.value ), a.id, a.id, sorted( { call_name( v ) for v in defs if isinstance( v, ast.Call ) } )))
+            else:
+                res.bad( src, c, '%s = %s' % ( a.id, norm_text( bad[0] ) if bad else '?' ), 'a received block is transformed before it is parsed: payload bytes that look like separators/whitespace are altered when they fall on a block boundary (framing then depends on how the stream is cut)', func=qn )
+        # no stateful default argument
+        args = fn.args
+        for p_, d in list( zip( reversed( args.args ), reversed( args.defaults ))) + [ ( k, v ) for k, v in zip( args.kwonlyargs, args.kw_defaults ) if v is not None ]:
+            if isinstance( d, ( ast.Call, ast.List, ast.Dict, ast.Set )):
+                res.bad( src, d, '%s( ..., %s=%s )' % ( qn, p_.arg, norm_text( d )), 'a stateful default argument is created once and shared by every call: all sessions parse from one buffer', func=qn )
+        res.ok( src, fn, '%s: no stateful default arguments' % qn, nontrivial=False )
+    return res
